@@ -327,6 +327,9 @@ package builder
 
 //@ func UseUnderlyingTypeMethods.Build(gen, ctx, sourceID, source, target, errPath)
 //@   props C03 C13
+// C03: the nested position is always converted through the generator (method lookup + rules): a position without
+// rule at any depth fails the whole method -- it is never skipped or passed through unconverted
+//@   ensures@C03 err == nil ==> reached("gen.Build#1")
 //@   propagates
 // C07: pointer/underlying steps pass the path on unchanged
 //@   at@C07 call gen.Build#* assert same(arg4, errPath)
@@ -392,6 +395,10 @@ package builder
 
 //@ func BasicTargetPointerRule.Build(gen, ctx, sourceID, source, target, errPath)
 //@   props C03
+// C03: the nested position is always converted through the generator (method lookup + rules): a position without
+// rule at any depth fails the whole method -- it is never skipped or passed through unconverted
+//@   ensures@C03 err == nil ==> reached("gen.Build#1")
+//@   at@C03 call gen.Build#1 assert arg2 == source && arg3 == target.PointerInner
 //@   propagates
 // C04: the source expression itself is only passed through where that is allowed
 //@   ensures@C04 err == nil && result1 == sourceID ==> false
@@ -414,6 +421,7 @@ package builder
 
 //@ func Pointer.Build(gen, ctx, sourceID, source, target, errPath)
 //@   props C03 C13
+//@   at@C03 call gen.Assign#1 assert arg3 == source.PointerInner && arg4 == target.PointerInner
 //@   propagates
 // C04: the source expression itself is only passed through where that is allowed
 //@   ensures@C04 err == nil && result1 == sourceID ==> false
@@ -431,6 +439,10 @@ package builder
 //@   ensures err == nil ==> result1 != nil && result1.Code != nil
 //@ func Pointer.Assign(gen, ctx, assignTo, sourceID, source, target, errPath)
 //@   props C03 C13
+// C03: the nested position is always converted through the generator (method lookup + rules): a position without
+// rule at any depth fails the whole method -- it is never skipped or passed through unconverted
+//@   ensures@C03 err == nil ==> reached("gen.Build#1")
+//@   at@C03 call gen.Build#1 assert arg2 == source.PointerInner && arg3 == target.PointerInner
 //@   propagates
 // C07: pointer/underlying steps pass the path on unchanged
 //@   at@C07 call gen.Build#* assert same(arg4, errPath)
@@ -442,6 +454,7 @@ package builder
 
 //@ func SourcePointer.Build(gen, ctx, sourceID, source, target, path)
 //@   props C03 C13
+//@   at@C03 call gen.Assign#1 assert arg3 == source.PointerInner && arg4 == target
 //@   propagates
 // C04: the source expression itself is only passed through where that is allowed
 //@   ensures@C04 err == nil && result1 == sourceID ==> false
@@ -458,6 +471,10 @@ package builder
 //@   ensures err == nil ==> result1 != nil && result1.Code != nil
 //@ func SourcePointer.Assign(gen, ctx, assignTo, sourceID, source, target, path)
 //@   props C03 C13
+// C03: the nested position is always converted through the generator (method lookup + rules): a position without
+// rule at any depth fails the whole method -- it is never skipped or passed through unconverted
+//@   ensures@C03 err == nil ==> reached("gen.Build#1")
+//@   at@C03 call gen.Build#1 assert arg2 == source.PointerInner && arg3 == target
 //@   propagates
 // C07: pointer/underlying steps pass the path on unchanged
 //@   at@C07 call gen.Build#* assert same(arg4, path)
@@ -469,6 +486,11 @@ package builder
 
 //@ func TargetPointer.Build(gen, ctx, sourceID, source, target, path)
 //@   props C03 C13
+// C03: the nested position is always converted through the generator (method lookup + rules): a position without
+// rule at any depth fails the whole method -- it is never skipped or passed through unconverted
+//@   ensures@C03 err == nil ==> reached("gen.Build#1") || reached("gen.Assign#1")
+//@   at@C03 call gen.Build#1 assert arg2 == source && arg3 == target.PointerInner
+//@   at@C03 call gen.Assign#1 assert arg3 == source && arg4 == target.PointerInner
 //@   propagates
 // C04: the source expression itself is only passed through where that is allowed
 //@   ensures@C04 err == nil && result1 == sourceID ==> false
@@ -565,6 +587,10 @@ package builder
 //@   ensures err == nil ==> result1 != nil && result1.Code != nil
 //@ func List.Assign(gen, ctx, assignTo, sourceID, source, target, path)
 //@   props C03
+// C03: the nested position is always converted through the generator (method lookup + rules): a position without
+// rule at any depth fails the whole method -- it is never skipped or passed through unconverted
+//@   ensures@C03 err == nil ==> reached("gen.Assign#1")
+//@   at@C03 call gen.Assign#1 assert arg3 == source.ListInner && arg4 == target.ListInner
 //@   propagates
 // C07: element conversions get the path extended by the index variable of the emitted loop
 //@   at@C07 call gen.Assign#1 assert len(arg5) == len(path) + 1 && (forall j int :: 0 <= j && j < len(path) ==> arg5[j] == path[j])
@@ -588,6 +614,11 @@ package builder
 //@   ensures err == nil ==> result1 != nil && result1.Code != nil
 //@ func Map.Assign(gen, ctx, assignTo, sourceID, source, target, errPath)
 //@   props C03
+// C03: the nested position is always converted through the generator (method lookup + rules): a position without
+// rule at any depth fails the whole method -- it is never skipped or passed through unconverted
+//@   ensures@C03 err == nil ==> reached("gen.Build#1") && reached("gen.Assign#1")
+//@   at@C03 call gen.Build#1 assert arg2 == source.MapKey && arg3 == target.MapKey
+//@   at@C03 call gen.Assign#1 assert arg3 == source.MapValue && arg4 == target.MapValue
 //@   propagates
 // C07: key and value conversions get the path extended by the range key variable of the emitted loop
 //@   at@C07 call gen.Build#1 assert len(arg4) == len(old(errPath)) + 1 && (forall j int :: 0 <= j && j < len(old(errPath)) ==> arg4[j] == old(errPath)[j])
